@@ -3,7 +3,7 @@
    the ghost-knot repair, SplineObject.insert_knot, refine).  Reference: Spec/Boehm.v. *)
 From Coq Require Import List Arith Reals Lra Lia Bool ZArith QArith Qreals Permutation.
 From SplipyModel Require Import Spec.BSpline Spec.Boehm Model.Num Model.BasisDef Model.BasisEval Model.Tensor Model.Obj
-  Model.KnotInsert Proofs.TensorLemmas Proofs.InsertMatrix Proofs.TensorApply Proofs.InsertObj Proofs.ObjEval Proofs.SnapChar Proofs.InsertEndToEnd Proofs.OrderProofs Proofs.RaiseNested
+  Model.KnotInsert Proofs.TensorLemmas Proofs.InsertMatrix Proofs.TensorApply Proofs.InsertObj Proofs.ObjEval Proofs.SnapChar Proofs.InsertEndToEnd Proofs.InsertListEndToEnd Proofs.OrderProofs Proofs.RaiseNested
   Transfer.ParamBase Transfer.ParamObj Transfer.ParamInsert Extract.Exec.
 Import ListNotations.
 Open Scope R_scope.
@@ -118,6 +118,24 @@ Proof.
   - reflexivity.
   - unfold b_end, b_start, kn. cbn. lra.
 Qed.
+
+(* 6d. the same for a LIST of knots (insert_knot with a list, refine and the graded refinement utilities all reduce to
+       this): the insertion succeeds, the result is well formed with the same domain and the other directions
+       untouched, and evaluation is unchanged at every parameter tuple of the domain whose d-th entry is farther than
+       twice the snapping tolerance from every inserted value *)
+Theorem C04_insert_list_then_evaluate tol d ts (xs : list R) (o : obj R) :
+  0 < tol -> wf_obj_R tol o -> (d < length (o_bases o))%nat ->
+  b_per1 (nth d (o_bases o) dflt_basis) = 0%nat ->
+  (forall x, In x xs -> @b_start R NumR (nth d (o_bases o) dflt_basis) <= x < @b_end R NumR (nth d (o_bases o) dflt_basis) /\ 2 * tol <= Rabs (x - nth d ts 0)) ->
+  (forall i, (i < length (o_bases o))%nat -> in_dom tol (nth i (o_bases o) dflt_basis) (nth i ts 0)) ->
+  exists o', @obj_insert_knots R NumR o d xs = Ok o' /\ wf_obj_R tol o' /\
+             @obj_eval R NumR tol o' ts = @obj_eval R NumR tol o ts /\
+             length (o_bases o') = length (o_bases o) /\
+             (forall i, i <> d -> nth i (o_bases o') dflt_basis = nth i (o_bases o) dflt_basis) /\
+             @b_start R NumR (nth d (o_bases o') dflt_basis) = @b_start R NumR (nth d (o_bases o) dflt_basis) /\
+             @b_end R NumR (nth d (o_bases o') dflt_basis) = @b_end R NumR (nth d (o_bases o) dflt_basis).
+Proof. intros Htol. exact (insert_knots_eval tol Htol d ts xs o). Qed.
+Print Assumptions C04_insert_list_then_evaluate.
 
 (* 6c. snap() depends on the knot vector only through its values, and is unchanged by the insertion of a knot for
        every parameter that is not within the tolerance of the new knot *)
